@@ -260,3 +260,120 @@ def completeness(sx, B):
     """All molecules are iterated until each has positions: the C17 harness (real run_system under every failure schedule, incl.
     exhausted rounds of attempts) with the end-of-run claim that every residue of every molecule has a finite position."""
     _c17.rewind(sx, B)
+
+
+E2E_MOLS = {"PM": [("A", ["a1", "a2"]), ("B", ["b1"]), ("A", ["a1", "a2"])], "SV": [("S", ["s1"])]}
+E2E_LAYOUT = [("PM", 1), ("SV", 2), ("PM", 1)]
+
+
+def _gro(atoms, box):
+    lines = ["given", "%5d" % len(atoms)]
+    for k, (rid, rname, aname, xyz) in enumerate(atoms):
+        lines.append("%5d%-5s%5s%5d%8.3f%8.3f%8.3f" % (rid, rname, aname, k + 1, xyz[0], xyz[1], xyz[2]))
+    lines.append("%10.5f%10.5f%10.5f" % tuple(box))
+    return "\n".join(lines) + "\n"
+
+
+@condition("C03.end_to_end",
+           anchors=["polyply.src.gen_coords:gen_coords", "polyply.src.build_system:BuildSystem.run_system", "polyply.src.backmap:Backmap.run_molecule",
+                    "polyply.src.generate_templates:GenerateTemplates.run_molecule", "polyply.src.topology:Topology.add_positions_from_file"],
+           rejects=(), selector_only=True, must_cover=["box", "density", "structure", "build file", "grid", "start", "meta coordinates"],
+           stubs=["none: the real gen_coords runs end to end with real files (random seed fixed from VERIF_SEED)"],
+           outside=["systems larger than the 4-molecule test system", "this condition explores option combinations with one seed each; all-seeds claims are the lemmas above"],
+           cfg={"path_timeout_s": 300},
+           bounds={"quick": dict(), "thorough": dict()},
+           budget={"quick": 280, "thorough": 900})
+def end_to_end(sx, B):
+    """The real gen_coords, unstubbed, on a four-molecule topology with a solver-chosen combination of options (-box / -dens /
+    input structure for the first molecules / residue-centre coordinates, build file, -grid, -start, -res): the written .gro lists
+    exactly the atoms of the expanded [ molecules ] section in order with residue numbers, residue names and atom names, all
+    coordinates finite, supplied coordinates unchanged, and the box that was requested / taken from the structure / cubic with
+    volume = 1.660541 x mass / density."""
+    boxmode = sx.sel("box_source", ["box", "density", "structure", "meta coordinates"])
+    buildfile = sx.sel("build_file", [False, True])
+    grid = sx.sel("grid", [False, True])
+    start = sx.sel("start", [False, True])
+    rebuild = sx.sel("rebuild_residue_B", [False, True]) if boxmode == "structure" else False
+    sx.cover({"box": "box", "density": "density", "structure": "structure", "meta coordinates": "meta coordinates"}[boxmode])
+    d = tempfile.mkdtemp(prefix="pverif_", dir=os.environ.get("TMPDIR"))
+    DeferredFileWriter().open_files.clear()
+    np.random.seed(int(os.environ.get("VERIF_SEED", "0") or 0) + 11)
+    import random as _random
+    _random.seed(int(os.environ.get("VERIF_SEED", "0") or 0) + 11)
+    try:
+        (Path(d) / "sys.top").write_text(top_text(E2E_MOLS, E2E_LAYOUT, atomtypes=("A", "B", "S")))
+        kw = dict(toppath=Path(d) / "sys.top", outpath=Path(d) / "out.gro", name="sys", maxiter=200)
+        given = []
+        sbox = (7.0, 8.0, 9.0)
+        if boxmode == "structure":
+            # all atoms of the first molecule and the first solvent are supplied
+            spec = [(1, "A", "a1"), (1, "A", "a2"), (2, "B", "b1"), (3, "A", "a1"), (3, "A", "a2"), (1, "S", "s1")]
+            if rebuild:
+                # residues named for rebuilding are not part of the coordinate file (the reader consumes rows in order)
+                spec = [x for x in spec if x[1] != "B"]
+            for k, (rid, rn, an) in enumerate(spec):
+                given.append((rid, rn, an, (1.0 + 0.47 * k, 2.0 + 0.1 * (k % 2), 3.0)))
+            (Path(d) / "in.gro").write_text(_gro(given, sbox))
+            kw["coordpath"] = Path(d) / "in.gro"
+            if rebuild:
+                kw["build_res"] = ["B"]
+        elif boxmode == "meta coordinates":
+            centres = [(1, "A", "A", (1.0, 2.0, 3.0)), (2, "B", "B", (1.5, 2.0, 3.0)), (3, "A", "A", (2.0, 2.0, 3.0))]
+            (Path(d) / "meta.gro").write_text(_gro(centres, sbox))
+            kw["coordpath_meta"] = Path(d) / "meta.gro"
+        elif boxmode == "box":
+            kw["box"] = np.array([6.0, 6.5, 7.0])
+        else:
+            kw["density"] = 20.0
+        if buildfile:
+            (Path(d) / "b.bld").write_text("[ molecule ]\nPM 0 4\n[ sphere ]\nA 1 4 in 3.0 3.0 3.0 5.0\n[ volumes ]\nS 0.4\n")
+            kw["build"] = [Path(d) / "b.bld"]
+            sx.cover("build file")
+        if grid:
+            pts = np.array([[0.5 + 0.8 * i, 0.5 + 0.8 * j, 0.5 + 0.8 * k] for i in range(4) for j in range(4) for k in range(4)])
+            np.savetxt(Path(d) / "grid.dat", pts)
+            kw["grid"] = Path(d) / "grid.dat"
+            sx.cover("grid")
+        if start:
+            kw["start"] = ["PM-A#3"]
+            sx.cover("start")
+        with patched(bs, tqdm=_Tq):
+            gc.gen_coords(**kw)
+        text = (Path(d) / "out.gro").read_text().split("\n")
+    finally:
+        DeferredFileWriter().open_files.clear()
+        shutil.rmtree(d, ignore_errors=True)
+    spec_of = {"PM": [(1, "A", "a1"), (1, "A", "a2"), (2, "B", "b1"), (3, "A", "a1"), (3, "A", "a2")], "SV": [(1, "S", "s1")]}
+    want = [x for nm, c in E2E_LAYOUT for _ in range(c) for x in spec_of[nm]]
+    natoms = int(text[1])
+    got = [(int(l[0:5]), l[5:10].strip(), l[10:15].strip(), tuple(float(x) for x in l[20:].split()[:3])) for l in text[2:2 + natoms]]
+    what = lambda: "options %r" % {k: (str(v) if not isinstance(v, (int, float, list)) else v) for k, v in kw.items() if k not in ("toppath", "outpath", "name")}
+    sx.claim([g[:3] for g in got] == want, "the structure lists exactly the atoms of the expanded [ molecules ] section in topology order",
+             lambda: what() + ": %r" % [g[:3] for g in got])
+    sx.claim(all(np.all(np.isfinite(g[3])) for g in got), "every coordinate is finite", what)
+    boxline = [float(x) for x in text[2 + natoms].split()]
+    if boxmode in ("structure", "meta coordinates"):
+        sx.claim(np.allclose(boxline, sbox, atol=1e-4), "the box of the input structure is written", lambda: what() + ": %r" % boxline)
+    elif boxmode == "box":
+        sx.claim(np.allclose(boxline, [6.0, 6.5, 7.0], atol=1e-4), "the requested box is written", lambda: what() + ": %r" % boxline)
+    else:
+        mass = 36.0 * len(want)
+        edge = round((mass * 1.6605410 / 20.0) ** (1 / 3.), 5)
+        sx.claim(np.allclose(boxline, [edge] * 3, atol=2e-5), "a cubic box with volume = total mass / density is written",
+                 lambda: what() + ": %r expected %r" % (boxline, edge))
+    # position of the supplied atoms in the output (the rebuilt residue B of the first molecule is atom 2)
+    out_idx = [0, 1, 2, 3, 4, 5] if not rebuild else [0, 1, 3, 4, 5]
+    for k, (rid, rn, an, xyz) in zip(out_idx, given):
+        sx.claim(np.allclose(got[k][3], xyz, atol=1.1e-3), "supplied coordinates are written unchanged",
+                 lambda: what() + ": atom %d %r expected %r" % (k, got[k][3], xyz))
+
+
+class _Tq:
+    def __init__(self, *a, **k):
+        pass
+
+    def update(self, n):
+        pass
+
+    def close(self):
+        pass
